@@ -5,10 +5,13 @@ import (
 	"fmt"
 	"runtime"
 	"strings"
+	"sync"
 	"sync/atomic"
 	"time"
 
 	"google.golang.org/protobuf/types/known/anypb"
+
+	"github.com/kitex-contrib/xds/core/xdsresource"
 )
 
 // The request path at goroutine granularity (model: lean/XdsVerif/Model/Flow.lean): the bounded request channel, the
@@ -138,6 +141,199 @@ func flowCase(c *ctx, kind string, n int) {
 	}
 	c.emit(obj{"op": "flow", "kind": kind, "n": n, "obs": obj{"returnedWhileStalled": r1, "returned": r2, "hang": hung,
 		"senderInAdopt": senderInAdopt, "producerInSend": producerInSend, "wire": wire}})
+}
+
+// ---- yield point 7: a producer (Watch, updateAndACK) parked right before it hands its request to the channel ----
+
+type flowGateT struct {
+	mu     sync.Mutex
+	armed  bool
+	parked bool
+	gate   chan struct{}
+}
+
+var flowGate = flowGateT{gate: make(chan struct{})}
+
+// flowYield parks the FIRST producer that arrives after flowArm (one shot); later producers pass.
+func flowYield() {
+	flowGate.mu.Lock()
+	if !flowGate.armed {
+		flowGate.mu.Unlock()
+		return
+	}
+	flowGate.armed = false
+	flowGate.parked = true
+	g := flowGate.gate
+	flowGate.mu.Unlock()
+	<-g
+}
+
+func flowArm() {
+	flowGate.mu.Lock()
+	flowGate.armed = true
+	flowGate.parked = false
+	flowGate.mu.Unlock()
+}
+
+func flowParked() bool {
+	flowGate.mu.Lock()
+	defer flowGate.mu.Unlock()
+	return flowGate.parked
+}
+
+func flowRelease() {
+	flowGate.mu.Lock()
+	g := flowGate.gate
+	flowGate.gate = make(chan struct{})
+	flowGate.armed = false
+	flowGate.parked = false
+	flowGate.mu.Unlock()
+	close(g)
+}
+
+// goroutineIn reports whether some goroutine whose stack contains all of `frames` is in a state containing `state`.
+func goroutineIn(state string, frames ...string) bool {
+	buf := make([]byte, 1<<21)
+	st := string(buf[:runtime.Stack(buf, true)])
+	for _, g := range strings.Split(st, "\n\n") {
+		head := g
+		if i := strings.IndexByte(g, '\n'); i >= 0 {
+			head = g[:i]
+		}
+		if !strings.Contains(head, state) {
+			continue
+		}
+		ok := true
+		for _, f := range frames {
+			if !strings.Contains(g, f) {
+				ok = false
+				break
+			}
+		}
+		if ok {
+			return true
+		}
+	}
+	return false
+}
+
+// parkedAck: the receiver is parked at the moment it hands the acknowledgement of a response to the channel; a lookup of
+// another name of the same type misses meanwhile. Acknowledging and enqueuing are one critical section: the lookup's
+// Watch has to wait, so the control plane sees the acknowledgement (old set) first and the subscription change (new set)
+// last (C03: the last request of the type lists the interest set).
+func parkedAck(c *ctx, rt string) {
+	installYield()
+	w, err := newWorld(worldOpts{ndsNotRequired: true, fetchTimeout: 2 * time.Millisecond})
+	if err != nil {
+		fmt.Println("flow: world:", err)
+		return
+	}
+	defer func() { flowRelease(); w.close() }()
+	h := &histRun{c: c, w: w}
+	pre := []interface{}{obj{"o": "startup-lds", "stamp": inboundStamp}}
+	obs0 := h.observe(0)
+	var res string
+	h.step(obj{"o": "get", "rt": rt, "n": "p1"}, func() { res = w.get(rtOf(rt), "p1") })
+	h.steps[len(h.steps)-1].(obj)["obs"].(obj)["get"] = res
+	order := ""
+	h.step(obj{"o": "parked-ack", "rt": rt, "v": "v1", "nonce": "n1", "slots": slotsJSON([][3]string{{"good", "p1", "p1#1"}}), "n": "x1"}, func() {
+		flowArm()
+		w.feed(mkResp(urlOf(rt), "v1", "n1", []*anypb.Any{anyStamped(rt, "p1", "p1#1")}))
+		w.waitFor(flowParked, 5*time.Second)
+		done := make(chan struct{})
+		go func() { _ = w.get(rtOf(rt), "x1"); close(done) }()
+		// the lookup's Watch either waits for the client lock (held by the parked receiver) or goes through
+		w.waitFor(func() bool {
+			if goroutineIn("sync.", "(*xdsClient).Watch") || goroutineIn("semacquire", "(*xdsClient).Watch") {
+				order = "watch-waits"
+				return true
+			}
+			select {
+			case <-done:
+				order = "watch-overtook"
+				return true
+			default:
+				return false
+			}
+		}, 3*time.Second)
+		flowRelease()
+		select {
+		case <-done:
+		case <-time.After(5 * time.Second):
+			w.hung = true
+		}
+	})
+	h.steps[len(h.steps)-1].(obj)["order"] = order
+	uni := obj{"lds": []string{xdsresource.ReservedLdsResourceName}, "rds": []string{}, "cds": []string{}, "eds": []string{}}
+	uni[rt] = []string{"p1", "x1"}
+	c.count("parked-ack", 1)
+	c.count("parked-ack."+order, 1)
+	c.emit(obj{"op": "hist", "cfg": obj{"nds": false, "ns": "default", "dom": "cluster.local"}, "universe": uni,
+		"pre": pre, "obs0": obs0, "steps": h.steps})
+}
+
+// parkedWatchReconnect: a lookup that missed is parked at the moment it hands its request (which echoes the nonce of the
+// current stream) to the channel; the stream fails meanwhile. Reset + drain of the reconnect and the enqueue of a request
+// exclude each other (both under the client lock): the reconnect has to wait, so the stale request is drained (or dies
+// with the old stream) and nothing on the new stream carries a nonce of the old one (C04).
+func parkedWatchReconnect(c *ctx) {
+	installYield()
+	w, err := newWorld(worldOpts{ndsNotRequired: true, fetchTimeout: 2 * time.Millisecond})
+	if err != nil {
+		fmt.Println("flow: world:", err)
+		return
+	}
+	defer func() { flowRelease(); w.close() }()
+	h := &histRun{c: c, w: w}
+	pre := []interface{}{obj{"o": "startup-lds", "stamp": inboundStamp}}
+	obs0 := h.observe(0)
+	var res string
+	h.step(obj{"o": "get", "rt": "cds", "n": "p1"}, func() { res = w.get(rtOf("cds"), "p1") })
+	h.steps[len(h.steps)-1].(obj)["obs"].(obj)["get"] = res
+	h.step(obj{"o": "push", "rt": "cds", "v": "v1", "nonce": "n1", "slots": slotsJSON([][3]string{{"good", "p1", "p1#1"}})}, func() {
+		w.feed(mkResp(urlOf("cds"), "v1", "n1", []*anypb.Any{anyStamped("cds", "p1", "p1#1")}))
+	})
+	order := ""
+	h.step(obj{"o": "parked-watch-reconnect", "rt": "cds", "n": "x1"}, func() {
+		flowArm()
+		done := make(chan struct{})
+		go func() { _ = w.get(rtOf("cds"), "x1"); close(done) }()
+		w.waitFor(flowParked, 5*time.Second)
+		w.feedErr(errors.New("verif: stream reset"))
+		// the receiver's reconnect either waits for the client lock (held by the parked Watch) or goes through
+		w.waitFor(func() bool {
+			if goroutineIn("sync.", "(*xdsClient).reconnect") || goroutineIn("semacquire", "(*xdsClient).reconnect") {
+				order = "reconnect-waits"
+				return true
+			}
+			w.ads.mu.Lock()
+			n := len(w.ads.streams)
+			adopted := n >= 2 && w.ads.streams[n-1].sends > 0
+			w.ads.mu.Unlock()
+			if adopted {
+				order = "reconnect-overtook"
+				return true
+			}
+			return false
+		}, 3*time.Second)
+		flowRelease()
+		select {
+		case <-done:
+		case <-time.After(5 * time.Second):
+			w.hung = true
+		}
+		w.waitFor(func() bool {
+			w.ads.mu.Lock()
+			defer w.ads.mu.Unlock()
+			return len(w.ads.streams) >= 2
+		}, 5*time.Second)
+	})
+	h.steps[len(h.steps)-1].(obj)["order"] = order
+	uni := obj{"lds": []string{xdsresource.ReservedLdsResourceName}, "rds": []string{}, "cds": []string{"p1", "x1"}, "eds": []string{}}
+	c.count("parked-watch-reconnect", 1)
+	c.count("parked-watch-reconnect."+order, 1)
+	c.emit(obj{"op": "hist", "cfg": obj{"nds": false, "ns": "default", "dom": "cluster.local"}, "universe": uni,
+		"pre": pre, "obs0": obs0, "steps": h.steps})
 }
 
 func init() {
